@@ -210,6 +210,7 @@ func c17CaseCtx(o *Out, op string, vec []fakeOutcome, order []int, ending string
 	switch op {
 	case "broadcast":
 		o.SpecCase(line, "success="+b(res.err == nil), nontrivial)
+		o.Case("fanc"+line[3:], "success="+b(res.err == nil), nontrivial) // the goroutine-level model on this release schedule
 		if (res.err == nil) != allOK {
 			o.Violate("c17.broadcast.verdict", fmt.Sprintf("Broadcast returned err=%v but all-servers-ok=%v", res.err, allOK), rp)
 		}
@@ -222,6 +223,7 @@ func c17CaseCtx(o *Out, op string, vec []fakeOutcome, order []int, ending string
 		}
 	case "fork":
 		o.SpecCase(line, "success="+b(res.err == nil), nontrivial)
+		o.Case("fanc"+line[3:], "success="+b(res.err == nil), nontrivial) // the goroutine-level model on this release schedule
 		if (res.err == nil) != someOK {
 			o.Violate("c17.fork.verdict", fmt.Sprintf("Fork returned err=%v but some-server-ok=%v", res.err, someOK), rp)
 		}
@@ -266,6 +268,7 @@ func c17CaseCtx(o *Out, op string, vec []fakeOutcome, order []int, ending string
 		}
 		sort.Strings(rs)
 		o.SpecCase(line, strings.Join(rs, ","), nontrivial)
+		o.Case("fanc"+line[3:], strings.Join(rs, ","), nontrivial)
 	}
 }
 
